@@ -6,6 +6,16 @@ ROOT = os.path.dirname(os.path.abspath(__file__))
 ALL = ["C%02d" % i for i in range(1, 21)]
 
 CLAIMED = {
+ "C15": dict(
+   text="Lean 4 theorem: the acceptance function of sign_credential (the per-position loop with its early returns, ClaimSchema::is_valid's accumulation, the four validators with defaults and applicability, exactly-one-revocation threading, not-revoked test) accepts a claim vector iff it satisfies the declarative Conformant predicate of the property — for every schema and vector. The real sign_credential verdict is compared with the model and with an independently written conformance predicate on random schemas × perturbed vectors; every returned credential's signature and handle are verified.",
+   note="Trusted: Lean kernel + standard axioms; the regex crate's verdict and UTF-8 validity are inputs of the model (computed by the harness with the real crates); validity of returned signature / handle is C17 / C13 theory plus the oracle here.",
+   technique="Lean 4 proof (decision logic ⇔ declarative predicate) + verdict correspondence",
+   design="§7 C15"),
+ "C16": dict(
+   text="Lean 4 theorems over the truncating msm for both suites: request completeness when the secrets are listed in generator (index) order, special soundness of the issuer-side check (the commitment opens over the generators the issuer does not know and the blinding generator only), the over-long-vector theorem behind the repaired response-count check, blind signing + unblinding yields a signature on the union vector (BBS, PS), perfect hiding of the PS request and determinism of the BBS commitment (known finding). The real three-step flow runs for every non-empty blindable subset of schemas whose label order differs from index order, and deviating holders attack the policy (non-blindable, overlapping, duplicated labels), the proof (every leaf, every vector length, over-long forgery with recomputed challenge) and the commitment.",
+   note="Trusted: Lean kernel + standard axioms; forking lemma; pairing reading of signature validity. The blindable / disjoint / cover policy is decision logic exercised on the real issuer, not modelled in Lean. Known finding: BBS request commitment is unblinded.",
+   technique="Lean 4 proof (Σ-protocol algebra of the blind contexts, flow identities) + exhaustive-subset flow runs and deviating-holder catalogue",
+   design="§7 C16"),
  "C17": dict(
    text="Lean 4 theorems for both suites: sign/verify completeness; key, message and component binding of BBS signatures and exponent binding of PS signatures; proof-of-knowledge completeness for every partition; special soundness of the recomputed commitments for response vectors of the checked length, with the extracted relation shown to be a signature on the full vector; the over-long-vector theorem explaining the repaired length check. The model's verify / recomputed commitment / index→response lookup are compared with the real code on hand-made keys, signatures and proofs whose discrete logs are known (honest and 15 adversarial variants), and the real signer/prover is judged by the property's oracle on every partition.",
    note="Trusted: Lean kernel + standard axioms; pairing equations are read through the secret key (bilinearity and non-degeneracy of BLS12-381); computational unforgeability (q-SDH, PS assumption, forking lemma) is not formalised; hash-derived generators are treated as independent.",
